@@ -877,6 +877,22 @@ def fdivV : Val → Val → Val
   | .num a, .num b => if b = 0 then .nan else .num (a / b)
   | _, _ => .nan
 
+/-- a returned 3-D array: its cells and its shape -/
+structure Arr3 (α : Type) where
+  get : Int → Int → Int → α
+  n0 : Int
+  n1 : Int
+  n2 : Int
+
+/-- `for dsp in range(n)` with the whole state threaded: the body for 0, 1, …, n-1 in this order, stopping at the first
+    failure -/
+def forPlanes {σ : Type} (body : Int → σ → PyLoops.Res σ) : Nat → σ → PyLoops.Res σ
+  | 0, s => PyLoops.Res.ok s
+  | n + 1, s =>
+    match forPlanes body n s with
+    | PyLoops.Res.ok s' => body (n : Int) s'
+    | PyLoops.Res.outOfBounds => PyLoops.Res.outOfBounds
+
 /-- a preparation statement of the image handed to `cross_support` (pinned by its text in the translator) -/
 inductive PrepOp where
   | copy | maskInvalid | maskInvalidPixel | maskInvalidShifted | median3 | nanToInf
@@ -891,6 +907,49 @@ def sliceBox (n0 n1 r0 r1 c0 c1 : Int) : Int × Int × Int × Int :=
   let ch := PyArrays.sliceBound n1 c1
   (rl, cl, (if rh < rl then 0 else rh - rl), (if ch < cl then 0 else ch - cl))
 """
+
+
+WHOLE = '''/-! ## cost_volume_aggregation: the whole method on the whole volume
+
+The disparity loop is a REAL sequential loop here (`forPlanes`, the volume `agg` is the loop-carried state): that iteration
+`dsp` writes plane `dsp` only and reads plane `dsp` only is PROVED (`Properties/C11KernelsGlue.lean`: `aggLoopBody_frame`,
+`aggLoopBody_reads`), not assumed.  `np.swapaxes(a, 0, 2)[i, j, k] = a[k, j, i]`; `agg` has shape `(nb_disp, n_row_, n_col_)`
+(the reader checked the extents of `np.zeros` against `cv_data.shape`). -/
+
+/-- the body of the disparity loop: `cvd` = `cv_data` of shape `(cvd_n0, cvd_n1, _)`, `agg` of shape `(_, agg_n1, agg_n2)` -/
+def aggLoopBody (cvd : Int → Int → Int → Val) (cvd_n0 cvd_n1 : Int) (agg_n1 agg_n2 : Int)
+    (cross_left : Int → Int → Int → Int) (cl_n0 cl_n1 cl_n2 : Int)
+    (cross_right : Int → Int → Int → Int → Int) (cr_n0 cr_n1 cr_n2 : Int → Int) (disp : Int → Rat) (subpix : Int)
+    (dsp : Int) (agg : Int → Int → Int → Val) : PyLoops.Res (Int → Int → Int → Val) :=
+  match aggPlane (fun i j => cvd i j dsp) cvd_n0 cvd_n1 (fun i j => agg dsp i j) agg_n1 agg_n2
+      cross_left cl_n0 cl_n1 cl_n2 cross_right cr_n0 cr_n1 cr_n2 (disp dsp) subpix with
+  | PyLoops.Res.outOfBounds => PyLoops.Res.outOfBounds
+  | PyLoops.Res.ok r => PyLoops.Res.ok (fun k i j => if k = dsp then r.get i j else agg k i j)
+
+/-- `cost_volume_aggregation`: the cost volume `cv["cost_volume"].data` afterwards -/
+def costVolumeAggregation (cv : Int → Int → Int → Val) (cv_n0 cv_n1 cv_n2 : Int) (offset : Int)
+    (cross_left : Int → Int → Int → Int) (cl_n0 cl_n1 cl_n2 : Int)
+    (cross_right : Int → Int → Int → Int → Int) (cr_n0 cr_n1 cr_n2 : Int → Int) (disp : Int → Rat) (subpix : Int) :
+    PyLoops.Res (Arr3 Val) :=
+  let box := cvCropBox cv_n0 cv_n1 offset
+  let cvd : Int → Int → Int → Val := fun i j k => cv (box.1 + i) (box.2.1 + j) k
+  let n_col_ : Int := box.2.2.1
+  let n_row_ : Int := box.2.2.2
+  let nb_disp : Int := cv_n2
+  let agg0 : Int → Int → Int → Val := fun k i j => aggInit (cvd j i k)
+  match forPlanes (aggLoopBody cvd n_col_ n_row_ n_row_ n_col_ cross_left cl_n0 cl_n1 cl_n2 cross_right cr_n0 cr_n1 cr_n2 disp subpix)
+      nb_disp.toNat agg0 with
+  | PyLoops.Res.outOfBounds => PyLoops.Res.outOfBounds
+  | PyLoops.Res.ok agg =>
+    let res : Int → Int → Int → Val := fun i j k => agg k j i
+    let wb := writeBackBox cv_n0 cv_n1 offset
+    if writeBackTest offset then
+      if (decide (wb.2.2.1 = n_col_) && decide (wb.2.2.2 = n_row_)) = false then PyLoops.Res.outOfBounds else
+      PyLoops.Res.ok ⟨fun y x k =>
+        if decide (wb.1 ≤ y) && decide (y < wb.1 + wb.2.2.1) && decide (wb.2.1 ≤ x) && decide (x < wb.2.1 + wb.2.2.2)
+        then res (y - wb.1) (x - wb.2.1) k else cv y x k, cv_n0, cv_n1, cv_n2⟩
+    else PyLoops.Res.ok ⟨res, n_col_, n_row_, nb_disp⟩
+'''
 
 
 def render_scalar(k) -> list:
@@ -962,6 +1021,7 @@ def render(ag, sup) -> str:
     for ln in ag.plane.lines:
         lines.append("  " + ln)
     lines.append(f"  PyLoops.Res.ok ⟨{ag.aggp[0]}, {ag.aggp[1]}, {ag.aggp[2]}⟩\n")
+    lines.append(WHOLE)
     lines.append("/-! ## computes_cross_supports -/\n")
     lines.append("/-- the preparation statements of the left image, in the order of the source -/")
     lines.append("def prepLeft : List PrepOp := [" + ", ".join("." + o for o in sup["prepLeft"]) + "]")
